@@ -143,7 +143,8 @@ func Discharge(cfg *SolverCfg, obls []*Obligation) {
 			continue
 		}
 		if atomic.LoadInt64(&termCounter)-last > 6000000 {
-			wg.Wait()
+			// no barrier: a running obligation only loses sharing with terms it built before the sweep
+			// (pointer inequality never means more than "not the same syntax tree")
 			sweepInterned(mark)
 			last = atomic.LoadInt64(&termCounter)
 		}
@@ -169,7 +170,42 @@ func Discharge(cfg *SolverCfg, obls []*Obligation) {
 					qf = append(qf, goal)
 				}
 			}
-			// all quantifier-free conjuncts together first (one ground query instead of dozens)
+			// first attempt: the whole obligation in one ground query (every conjunct skolemised); on failure the
+			// conjuncts are proved one by one below
+			if pending := len(goals) - countTrue(done); pending > 1 && pending-len(qf) <= 10 && os.Getenv("GVC_WHOLE") != "" {
+				var all []*Term
+				okWhole := true
+				for gi, goal := range goals {
+					if done[gi] {
+						continue
+					}
+					sg := skolemizeGoal(goal)
+					if containsQuant(sg) {
+						okWhole = false
+						break
+					}
+					all = append(all, sg)
+				}
+				if okWhole {
+					as, g := withHints(o.Assump, And(all...))
+					var ground []*Term
+					for _, t := range as {
+						if !containsQuant(t) {
+							ground = append(ground, t)
+						}
+					}
+					aa := solveGround(cfg, QueryGround(ground, g))
+					o.Ms += aa.ms
+					if aa.status == "unsat" {
+						o.Solver = aa.solver
+						for gi := range goals {
+							done[gi] = true
+						}
+						qf = nil
+					}
+				}
+			}
+			// all quantifier-free conjuncts together (one ground query instead of dozens)
 			if len(qf) > 3 {
 				as, g := withHints(o.Assump, And(qf...))
 				var ground []*Term
@@ -303,6 +339,16 @@ func CheckSat(cfg *SolverCfg, assump []*Term) solverAnswer {
 }
 
 func containsQuant(t *Term) bool { return t.hasQuant }
+
+func countTrue(b []bool) int {
+	n := 0
+	for _, x := range b {
+		if x {
+			n++
+		}
+	}
+	return n
+}
 
 // solveGround tries the quantifier-free weakening of a query with a short timeout.
 func solveGround(cfg *SolverCfg, query string) solverAnswer {
